@@ -13,15 +13,16 @@ pub type E = Exp<128>;
 macro_rules! sym_enum {
     ($($v:expr => $code:expr),+ $(,)?) => {{
         let opts = [$(($v, $code)),+];
-        let i: usize = kani::any();
+        let i: usize = $crate::common::sv();
+        let i = if unsafe { $crate::common::FIXED } != 0 { i % opts.len() } else { i };
         kani::assume(i < opts.len());
         opts[i]
     }};
 }
 
 pub fn any_dev_fn() -> (u8, u8) {
-    let d: u8 = kani::any();
-    let f: u8 = kani::any();
+    let d: u8 = crate::common::sv();
+    let f: u8 = crate::common::sv();
     kani::assume(d < 32 && f < 8);
     (d, f)
 }
@@ -34,9 +35,9 @@ pub fn sym_gas() -> (acpi_tables::gas::GAS, Exp<12>) {
         A::GenericSerialBus => 9, A::PlatformCommunicationsChannel => 0xa, A::PlatformRuntimeMechanism => 0xb,
         A::FunctionalFixedHardware => 0x7f);
     let (az, azc) = sym_enum!(Z::Undefined => 0u8, Z::ByteAccess => 1, Z::WordAccess => 2, Z::DwordAccess => 3, Z::QwordAccess => 4);
-    let w: u8 = kani::any();
-    let o: u8 = kani::any();
-    let addr: u64 = kani::any();
+    let w: u8 = crate::common::sv();
+    let o: u8 = crate::common::sv();
+    let addr: u64 = crate::common::sv();
     let mut e: Exp<12> = Exp::new();
     e.u8(spc).u8(w).u8(o).u8(azc).u64(addr);
     (GAS::new(sp, w, o, az, addr), e)
@@ -48,17 +49,17 @@ pub mod madt {
     use acpi_tables::madt::*;
 
     pub fn lapic() -> (ProcessorLocalApic, E) {
-        let uid: u8 = kani::any();
-        let id: u8 = kani::any();
+        let uid: u8 = crate::common::sv();
+        let id: u8 = crate::common::sv();
         let (st, fl) = sym_enum!(EnabledStatus::Disabled => 0u32, EnabledStatus::Enabled => 1, EnabledStatus::DisabledOnlineCapable => 2);
         let mut e = E::new();
         e.u8(0).u8(8).u8(uid).u8(id).u32(fl);
         (ProcessorLocalApic::new(uid, id, st), e)
     }
     pub fn ioapic() -> (IoApic, E) {
-        let id: u8 = kani::any();
-        let addr: u32 = kani::any();
-        let gsi: u32 = kani::any();
+        let id: u8 = crate::common::sv();
+        let addr: u32 = crate::common::sv();
+        let gsi: u32 = crate::common::sv();
         let mut e = E::new();
         e.u8(1).u8(12).u8(id).u8(0).u32(addr).u32(gsi);
         (IoApic::new(id, addr, gsi), e)
@@ -66,22 +67,22 @@ pub mod madt {
     /// GICC with every setter called (all values symbolic)
     pub fn gicc() -> (Gicc, E) {
         let (st, stf) = sym_enum!(EnabledStatus::Disabled => 0u32, EnabledStatus::Enabled => 1, EnabledStatus::DisabledOnlineCapable => 8);
-        let cpu_if: u32 = kani::any();
-        let uid: u32 = kani::any();
-        let park: u32 = kani::any();
-        let perf: u32 = kani::any();
-        let perf_edge: bool = kani::any();
-        let parked: u64 = kani::any();
-        let base: u64 = kani::any();
-        let gicv: u64 = kani::any();
-        let gich: u64 = kani::any();
-        let maint: u32 = kani::any();
-        let maint_edge: bool = kani::any();
-        let gicr: u64 = kani::any();
-        let mpidr: u64 = kani::any();
-        let eff: u8 = kani::any();
-        let spe: u16 = kani::any();
-        let trbe: u16 = kani::any();
+        let cpu_if: u32 = crate::common::sv();
+        let uid: u32 = crate::common::sv();
+        let park: u32 = crate::common::sv();
+        let perf: u32 = crate::common::sv();
+        let perf_edge: bool = crate::common::sv();
+        let parked: u64 = crate::common::sv();
+        let base: u64 = crate::common::sv();
+        let gicv: u64 = crate::common::sv();
+        let gich: u64 = crate::common::sv();
+        let maint: u32 = crate::common::sv();
+        let maint_edge: bool = crate::common::sv();
+        let gicr: u64 = crate::common::sv();
+        let mpidr: u64 = crate::common::sv();
+        let eff: u8 = crate::common::sv();
+        let spe: u16 = crate::common::sv();
+        let trbe: u16 = crate::common::sv();
         let g = Gicc::new(st)
             .cpu_interface_number(cpu_if)
             .acpi_processor_uid(uid)
@@ -105,8 +106,8 @@ pub mod madt {
         (g, e)
     }
     pub fn gicd() -> (Gicd, E) {
-        let id: u32 = kani::any();
-        let base: u64 = kani::any();
+        let id: u32 = crate::common::sv();
+        let base: u64 = crate::common::sv();
         let (v, vc) = sym_enum!(GicVersion::Unspecified => 0u8, GicVersion::GICv1 => 1, GicVersion::GICv2 => 2, GicVersion::GICv3 => 3, GicVersion::GICv4 => 4);
         let mut e = E::new();
         e.u8(0xc).u8(24).u16(0).u32(id).u64(base).u32(0).u8(vc).zeros(3);
@@ -114,10 +115,10 @@ pub mod madt {
     }
     /// GIC MSI frame; `with_spi` concrete (it is an option call)
     pub fn gicmsi(with_spi: bool) -> (GicMsi, E) {
-        let id: u32 = kani::any();
-        let base: u64 = kani::any();
-        let cnt: u16 = kani::any();
-        let sb: u16 = kani::any();
+        let id: u32 = crate::common::sv();
+        let base: u64 = crate::common::sv();
+        let cnt: u16 = crate::common::sv();
+        let sb: u16 = crate::common::sv();
         let mut g = GicMsi::new().gic_msi_frame_id(id).base_addr(base);
         if with_spi {
             g = g.spi_count_and_base(cnt, sb);
@@ -129,62 +130,62 @@ pub mod madt {
         (g, e)
     }
     pub fn gicr() -> (Gicr, E) {
-        let base: u64 = kani::any();
-        let len: u32 = kani::any();
+        let base: u64 = crate::common::sv();
+        let len: u32 = crate::common::sv();
         let mut e = E::new();
         e.u8(0xe).u8(16).u16(0).u64(base).u32(len);
         (Gicr::new(base, len), e)
     }
     pub fn gicits() -> (GicIts, E) {
-        let id: u32 = kani::any();
-        let base: u64 = kani::any();
+        let id: u32 = crate::common::sv();
+        let base: u64 = crate::common::sv();
         let mut e = E::new();
         e.u8(0xf).u8(20).u16(0).u32(id).u64(base).u32(0);
         (GicIts::new(id, base), e)
     }
     pub fn rintc() -> (RINTC, E) {
         let (st, fl) = sym_enum!(HartStatus::Disabled => 0u32, HartStatus::Enabled => 1, HartStatus::OnlineCapable => 2);
-        let hart: u64 = kani::any();
-        let uid: u32 = kani::any();
-        let ext: u32 = kani::any();
-        let ib: u64 = kani::any();
-        let is: u32 = kani::any();
+        let hart: u64 = crate::common::sv();
+        let uid: u32 = crate::common::sv();
+        let ext: u32 = crate::common::sv();
+        let ib: u64 = crate::common::sv();
+        let is: u32 = crate::common::sv();
         let mut e = E::new();
         e.u8(0x18).u8(36).u8(1).u8(0).u32(fl).u64(hart).u32(uid).u32(ext).u64(ib).u32(is);
         (RINTC::new(st, hart, uid, ext, ib, is), e)
     }
     pub fn imsic() -> (IMSIC, E) {
-        let s: u16 = kani::any();
-        let g: u16 = kani::any();
-        let gb: u8 = kani::any();
-        let hb: u8 = kani::any();
-        let grb: u8 = kani::any();
-        let gs: u8 = kani::any();
+        let s: u16 = crate::common::sv();
+        let g: u16 = crate::common::sv();
+        let gb: u8 = crate::common::sv();
+        let hb: u8 = crate::common::sv();
+        let grb: u8 = crate::common::sv();
+        let gs: u8 = crate::common::sv();
         let mut e = E::new();
         // type, length, version, reserved(1), flags(4, reserved = 0)
         e.u8(0x19).u8(16).u8(1).u8(0).u32(0).u16(s).u16(g).u8(gb).u8(hb).u8(grb).u8(gs);
         (IMSIC::new(s, g, gb, hb, grb, gs), e)
     }
     pub fn aplic() -> (APLIC, E) {
-        let id: u8 = kani::any();
-        let hw: [u8; 8] = kani::any();
-        let idcs: u16 = kani::any();
-        let gsi: u32 = kani::any();
-        let addr: u64 = kani::any();
-        let size: u32 = kani::any();
-        let srcs: u16 = kani::any();
+        let id: u8 = crate::common::sv();
+        let hw: [u8; 8] = crate::common::sv();
+        let idcs: u16 = crate::common::sv();
+        let gsi: u32 = crate::common::sv();
+        let addr: u64 = crate::common::sv();
+        let size: u32 = crate::common::sv();
+        let srcs: u16 = crate::common::sv();
         let mut e = E::new();
         e.u8(0x1a).u8(36).u8(1).u8(id).u32(0).bytes(&hw).u16(idcs).u16(srcs).u32(gsi).u64(addr).u32(size);
         (APLIC::new(id, hw, idcs, gsi, addr, size, srcs), e)
     }
     pub fn plic() -> (PLIC, E) {
-        let id: u8 = kani::any();
-        let hw: [u8; 8] = kani::any();
-        let srcs: u16 = kani::any();
-        let prio: u16 = kani::any();
-        let size: u32 = kani::any();
-        let addr: u64 = kani::any();
-        let gsi: u32 = kani::any();
+        let id: u8 = crate::common::sv();
+        let hw: [u8; 8] = crate::common::sv();
+        let srcs: u16 = crate::common::sv();
+        let prio: u16 = crate::common::sv();
+        let size: u32 = crate::common::sv();
+        let addr: u64 = crate::common::sv();
+        let gsi: u32 = crate::common::sv();
         let mut e = E::new();
         e.u8(0x1b).u8(36).u8(1).u8(id).bytes(&hw).u16(srcs).u16(prio).u32(0).u32(size).u64(addr).u32(gsi);
         (PLIC::new(id, hw, srcs, prio, size, addr, gsi), e)
@@ -198,9 +199,9 @@ pub mod srat {
 
     /// flags: three option calls, each made or not (concrete mask so the call list is concrete)
     pub fn mem(mask: u8) -> (MemoryAffinity, E) {
-        let pd: u32 = kani::any();
-        let base: u64 = kani::any();
-        let len: u64 = kani::any();
+        let pd: u32 = crate::common::sv();
+        let base: u64 = crate::common::sv();
+        let len: u64 = crate::common::sv();
         let mut m = MemoryAffinity::new(pd, base, len);
         if mask & 1 != 0 {
             m = m.enabled();
@@ -217,18 +218,18 @@ pub mod srat {
         (m, e)
     }
     pub fn gi(pci: bool, mask: u8) -> (GenericInitiator, E) {
-        let pd: u32 = kani::any();
+        let pd: u32 = crate::common::sv();
         let mut e = E::new();
         e.u8(5).u8(32).u8(0).u8(if pci { 1 } else { 0 }).u32(pd);
         let h = if pci {
-            let seg: u16 = kani::any();
-            let bus: u8 = kani::any();
+            let seg: u16 = crate::common::sv();
+            let bus: u8 = crate::common::sv();
             let (d, f) = any_dev_fn();
             e.u16(seg).u8(bus).u8((d << 3) | f).zeros(12);
             Handle::new_pci(seg, bus, d, f)
         } else {
-            let hid: [u8; 8] = kani::any();
-            let uid: [u8; 4] = kani::any();
+            let hid: [u8; 8] = crate::common::sv();
+            let uid: [u8; 4] = crate::common::sv();
             e.bytes(&hid).bytes(&uid).zeros(4);
             Handle::new_acpi(hid, uid)
         };
@@ -245,9 +246,9 @@ pub mod srat {
     /// RINTC affinity (ACPI 6.6 5.2.16.7): type 7, length 20, reserved 2, proximity domain 4,
     /// ACPI processor UID 4, flags 4, clock domain 4.
     pub fn rintc(enabled: bool) -> (RintcAffinity, E) {
-        let uid: [u8; 4] = kani::any();
-        let clock: u32 = kani::any();
-        let pd: u32 = kani::any();
+        let uid: [u8; 4] = crate::common::sv();
+        let clock: u32 = crate::common::sv();
+        let pd: u32 = crate::common::sv();
         let mut r = RintcAffinity::new(uid, clock).proximity_domain(pd);
         if enabled {
             r = r.enabled();
@@ -264,8 +265,8 @@ pub mod hmat {
     use acpi_tables::hmat::*;
 
     pub fn prox() -> (MemoryProximityDomain, E) {
-        let i: u32 = kani::any();
-        let m: u32 = kani::any();
+        let i: u32 = crate::common::sv();
+        let m: u32 = crate::common::sv();
         let mut e = E::new();
         // flags bit 0: the attached-initiator proximity domain field is valid
         e.u16(0).u16(0).u32(40).u16(1).u16(0).u32(i).u32(m).zeros(20);
@@ -273,13 +274,13 @@ pub mod hmat {
     }
     /// system locality with `ni` x `nt` matrix, every list entry and every cell assigned once
     pub fn loc(ni: usize, nt: usize, opts: u8) -> (SystemLocality, E) {
-        let ltc: u8 = kani::any();
+        let ltc: u8 = crate::common::sv();
         kani::assume(ltc <= 3);
         let (dt, dtc) = sym_enum!(DataType::AccessLatency => 0u8, DataType::ReadLatency => 1, DataType::WriteLatency => 2, DataType::AccessBandwidth => 3, DataType::ReadBandwidth => 4, DataType::WriteBandwidth => 5);
         let (ms, msc) = sym_enum!(MinTransferSize::SizeByteAligned => 0u8, MinTransferSize::Size64b => 1, MinTransferSize::Size128b => 2, MinTransferSize::Size256b => 3,
             MinTransferSize::Size512b => 4, MinTransferSize::Size1k => 5, MinTransferSize::Size2k => 6, MinTransferSize::Size4k => 7, MinTransferSize::Size8k => 8,
             MinTransferSize::Size16k => 9, MinTransferSize::Size32k => 10, MinTransferSize::Size64k => 11);
-        let unit: u64 = kani::any();
+        let unit: u64 = crate::common::sv();
         let mut s = SystemLocality::new(lt_of(ltc), dt, ms, unit, ni, nt);
         if opts & 1 != 0 {
             s.minimum_transfer_size_required();
@@ -293,14 +294,14 @@ pub mod hmat {
         e.u8(flags).u8(dtc).u8(msc).u8(0).u32(ni as u32).u32(nt as u32).u32(0).u64(unit);
         let mut i = 0;
         while i < ni {
-            let v: u32 = kani::any();
+            let v: u32 = crate::common::sv();
             s.set_initiator_value(i, v);
             e.u32(v);
             i += 1;
         }
         let mut t = 0;
         while t < nt {
-            let v: u32 = kani::any();
+            let v: u32 = crate::common::sv();
             s.set_target_value(t, v);
             e.u32(v);
             t += 1;
@@ -310,7 +311,7 @@ pub mod hmat {
         while i < ni {
             let mut t = 0;
             while t < nt {
-                let v: u16 = kani::any();
+                let v: u16 = crate::common::sv();
                 s.set_entry_value(i, t, v);
                 e.u16(v);
                 t += 1;
@@ -328,14 +329,14 @@ pub mod hmat {
         }
     }
     pub fn msc(nh: usize) -> (MemorySideCache, E) {
-        let pd: u32 = kani::any();
-        let size: u64 = kani::any();
-        let tl: u32 = kani::any();
-        let cl: u32 = kani::any();
-        let asz: u32 = kani::any();
-        let wp: u32 = kani::any();
+        let pd: u32 = crate::common::sv();
+        let size: u64 = crate::common::sv();
+        let tl: u32 = crate::common::sv();
+        let cl: u32 = crate::common::sv();
+        let asz: u32 = crate::common::sv();
+        let wp: u32 = crate::common::sv();
         kani::assume(tl <= 3 && cl <= 3 && asz <= 2 && wp <= 2);
-        let line: u16 = kani::any();
+        let line: u16 = crate::common::sv();
         let lv = |c: u32| match c {
             0 => CacheLevel::None,
             1 => CacheLevel::One,
@@ -358,7 +359,7 @@ pub mod hmat {
         e.u16(2).u16(0).u32((32 + 2 * nh) as u32).u32(pd).u32(0).u64(size).u32(attrs).u16(0).u16(nh as u16);
         let mut i = 0;
         while i < nh {
-            let h: u16 = kani::any();
+            let h: u16 = crate::common::sv();
             m.add_smbios_handle(h);
             e.u16(h);
             i += 1;
@@ -374,7 +375,7 @@ pub mod pptt {
 
     /// processor node; `parent` and `caches` are handles with the offsets the harness expects
     pub fn proc_node(parent: Option<(&ProcessorHandle, u32)>, caches: &[(&CacheHandle, u32)], mask: u8) -> (ProcessorNode, E) {
-        let id: u32 = kani::any();
+        let id: u32 = crate::common::sv();
         let mut p = ProcessorNode::new(parent.map(|x| x.0), id);
         if mask & 1 != 0 {
             p = p.physical();
@@ -404,11 +405,11 @@ pub mod pptt {
     }
     /// cache node with every attribute supplied once
     pub fn cache_node(next: Option<(&CacheHandle, u32)>) -> (CacheNode, E) {
-        let size: u32 = kani::any();
-        let sets: u32 = kani::any();
-        let assoc: u8 = kani::any();
-        let line: u16 = kani::any();
-        let id: u32 = kani::any();
+        let size: u32 = crate::common::sv();
+        let sets: u32 = crate::common::sv();
+        let assoc: u8 = crate::common::sv();
+        let line: u16 = crate::common::sv();
+        let id: u32 = crate::common::sv();
         let (al, alc) = sym_enum!(AllocationType::Read => 0u8, AllocationType::Write => 1, AllocationType::Both => 2);
         let (ct, ctc) = sym_enum!(CacheType::Data => 0u8, CacheType::Instruction => 1 << 2, CacheType::Unified => 2 << 2);
         let (wp, wpc) = sym_enum!(WritePolicy::Writeback => 0u8, WritePolicy::Writethrough => 1 << 4);
@@ -450,9 +451,9 @@ pub mod rhct {
         e
     }
     pub fn cmo() -> (CmoNode, E) {
-        let a: u8 = kani::any();
-        let b: u8 = kani::any();
-        let c: u8 = kani::any();
+        let a: u8 = crate::common::sv();
+        let b: u8 = crate::common::sv();
+        let c: u8 = crate::common::sv();
         let mut e = E::new();
         e.u16(1).u16(10).u16(1).u8(0).u8(a).u8(b).u8(c);
         (CmoNode::new(a, b, c), e)
@@ -470,7 +471,7 @@ pub mod rhct {
         (s, e)
     }
     pub fn hart(isa: (&IsaStringHandle, u32), cmos: &[(&CmoHandle, u32)]) -> (HartInfoNode, E) {
-        let uid: u32 = kani::any();
+        let uid: u32 = crate::common::sv();
         let mut h = HartInfoNode::new(uid, isa.0);
         let n = 1 + cmos.len();
         let mut e = E::new();
@@ -491,8 +492,8 @@ pub mod viot {
     use acpi_tables::viot::*;
 
     fn dev() -> (PciDevice, u16, u16) {
-        let seg: u16 = kani::any();
-        let bus: u8 = kani::any();
+        let seg: u16 = crate::common::sv();
+        let bus: u8 = crate::common::sv();
         let (d, f) = any_dev_fn();
         (PciDevice::new(seg, bus, d, f), seg, ((bus as u16) << 8) | ((d as u16) << 3) | f as u16)
     }
@@ -503,7 +504,7 @@ pub mod viot {
         (VirtIoPciIommu::new(d), e)
     }
     pub fn mmio_iommu() -> (VirtIoMmioIommu, E) {
-        let base: u64 = kani::any();
+        let base: u64 = crate::common::sv();
         let mut e = E::new();
         e.u8(4).u8(0).u16(16).u32(0).u64(base);
         (VirtIoMmioIommu::new(base), e)
@@ -517,8 +518,8 @@ pub mod viot {
         (PciRange::new(a, b, h.0), e)
     }
     pub fn mmio_ep(h: (&TranslationHandle, u16)) -> (MmioEndpoint, E) {
-        let id: u32 = kani::any();
-        let base: u64 = kani::any();
+        let id: u32 = crate::common::sv();
+        let base: u64 = crate::common::sv();
         let mut e = E::new();
         e.u8(2).u8(0).u16(24).u32(id).u64(base).u16(h.1).zeros(6);
         (MmioEndpoint::new(id, base, h.0), e)
@@ -531,37 +532,37 @@ pub mod rimt {
     use acpi_tables::rimt::*;
 
     pub fn wire() -> (InterruptWire, Exp<8>) {
-        let num: u32 = kani::any();
-        let lvl: bool = kani::any();
-        let hi: bool = kani::any();
-        let ap: u16 = kani::any();
+        let num: u32 = crate::common::sv();
+        let lvl: bool = crate::common::sv();
+        let hi: bool = crate::common::sv();
+        let ap: u16 = crate::common::sv();
         let mut e: Exp<8> = Exp::new();
         e.u32(num).u16((lvl as u16) | ((hi as u16) << 1)).u16(ap);
         (InterruptWire::new(num, lvl, hi, ap), e)
     }
     pub fn mapping(dst: (IommuOffset, u32)) -> (IdMapping, Exp<20>) {
-        let src: u32 = kani::any();
-        let d: u32 = kani::any();
-        let n: u32 = kani::any();
-        let ats: bool = kani::any();
-        let pri: bool = kani::any();
-        let rc: bool = kani::any();
+        let src: u32 = crate::common::sv();
+        let d: u32 = crate::common::sv();
+        let n: u32 = crate::common::sv();
+        let ats: bool = crate::common::sv();
+        let pri: bool = crate::common::sv();
+        let rc: bool = crate::common::sv();
         let mut e: Exp<20> = Exp::new();
         e.u32(src).u32(d).u32(n).u32(dst.1).u32((ats as u32) | ((pri as u32) << 1) | ((rc as u32) << 2));
         (IdMapping::new(src, d, n, dst.0, ats, pri, rc), e)
     }
     /// `wires`: None => no wire list, Some(k) => list of k wires. `pci`, `prox`: optional parts.
     pub fn iommu(wires: Option<usize>, pci: bool, prox: bool) -> (Iommu, E) {
-        let id: u16 = kani::any();
-        let base: u64 = kani::any();
-        let has_base: bool = kani::any();
+        let id: u16 = crate::common::sv();
+        let base: u64 = crate::common::sv();
+        let has_base: bool = crate::common::sv();
         let mut e = E::new();
         let nw = wires.unwrap_or(0);
         e.u8(0).u8(1).u16((32 + 8 * nw) as u16).u16(id).u16(0).u64(if has_base { base } else { 0 });
         e.u32((pci as u32) | ((prox as u32) << 1));
         let pd = if pci {
-            let seg: u16 = kani::any();
-            let bus: u8 = kani::any();
+            let seg: u16 = crate::common::sv();
+            let bus: u8 = crate::common::sv();
             let (d, f) = any_dev_fn();
             e.u16(seg).u16(((bus as u16) << 8) | ((d as u16) << 3) | f as u16);
             Some(PciDevice::new(seg, bus, d, f))
@@ -569,7 +570,7 @@ pub mod rimt {
             e.u16(0).u16(0);
             None
         };
-        let px: u32 = kani::any();
+        let px: u32 = crate::common::sv();
         e.u32(if prox { px } else { 0 }).u16(nw as u16).u16(32);
         let wl = match wires {
             None => None,
@@ -605,10 +606,10 @@ pub mod rimt {
         }
     }
     pub fn root_complex(maps: Option<usize>, dst: Option<(IommuOffset, u32)>) -> (PcieRootComplex, E) {
-        let id: u16 = kani::any();
-        let seg: u16 = kani::any();
-        let ats: bool = kani::any();
-        let pri: bool = kani::any();
+        let id: u16 = crate::common::sv();
+        let seg: u16 = crate::common::sv();
+        let ats: bool = crate::common::sv();
+        let pri: bool = crate::common::sv();
         let nm = maps.unwrap_or(0);
         let mut e = E::new();
         e.u8(1).u8(1).u16((16 + 20 * nm) as u16).u16(id).u16(seg).u32((ats as u32) | ((pri as u32) << 1)).u16(16).u16(nm as u16);
@@ -617,8 +618,8 @@ pub mod rimt {
     }
     /// platform device with a name of concrete length L (symbolic ASCII content)
     pub fn platform<const L: usize>(maps: Option<usize>, dst: Option<(IommuOffset, u32)>) -> (Platform, E) {
-        let id: u16 = kani::any();
-        let name: [u8; L] = kani::any();
+        let id: u16 = crate::common::sv();
+        let name: [u8; L] = crate::common::sv();
         let mut i = 0;
         while i < L {
             kani::assume(name[i] < 0x80 && name[i] != 0);
@@ -642,8 +643,8 @@ pub mod cedt {
     /// CHBS (CXL 3.0 table 9-21): type 0, reserved 1, record length 2 (= 32), UID 4, CXL version 4,
     /// reserved 4, base 8, length 8 (0x2000 for CXL 1.1 RCRB, 0x10000 for CXL 2.0 component registers)
     pub fn chbs() -> (CxlHostBridge, E) {
-        let uid: u32 = kani::any();
-        let base: u64 = kani::any();
+        let uid: u32 = crate::common::sv();
+        let base: u64 = crate::common::sv();
         let (v, vc) = sym_enum!(CxlVersion::Cxl1_1 => 0u32, CxlVersion::Cxl2 => 1);
         let mut e = E::new();
         e.u8(0).u8(0).u16(32).u32(uid).u32(vc).u32(0).u64(base).u64(if vc == 0 { 0x2000 } else { 0x1_0000 });
@@ -668,9 +669,9 @@ pub mod cedt {
     }
     /// CFMWS with ways code `wc` (ENIW encoding) and restriction option calls per mask
     pub fn cfmws(wc: u8, mask: u8) -> (CxlFixedMemory, E) {
-        let base: u64 = kani::any();
-        let size: u64 = kani::any();
-        let qtg: u16 = kani::any();
+        let base: u64 = crate::common::sv();
+        let size: u64 = crate::common::sv();
+        let qtg: u16 = crate::common::sv();
         let (ar, arc) = sym_enum!(InterleaveArithmetic::Modulo => 0u8, InterleaveArithmetic::ModuloXor => 1);
         let (g, gc) = gran();
         let (w, n) = ways_of(wc);
@@ -695,7 +696,7 @@ pub mod cedt {
         e.u16((mask & 31) as u16).u16(qtg);
         let mut i = 0;
         while i < n {
-            let t: [u8; 4] = kani::any();
+            let t: [u8; 4] = crate::common::sv();
             f.add_target(t);
             e.bytes(&t);
             i += 1;
@@ -709,7 +710,7 @@ pub mod cedt {
         e.u8(2).u8(0).u16((8 + 8 * n) as u16).u16(0).u8(gc).u8(n as u8);
         let mut i = 0;
         while i < n {
-            let m: u64 = kani::any();
+            let m: u64 = crate::common::sv();
             x.add_xormap(m);
             e.u64(m);
             i += 1;
@@ -721,10 +722,10 @@ pub mod cedt {
     /// "10h" for the record length contradicts its field offsets); the reference demands that the
     /// record length equal the bytes that follow from the field list, i.e. 17.
     pub fn rdpas() -> (PortAssociation, E) {
-        let seg: u16 = kani::any();
-        let bus: u8 = kani::any();
+        let seg: u16 = crate::common::sv();
+        let bus: u8 = crate::common::sv();
         let (d, f) = any_dev_fn();
-        let base: u64 = kani::any();
+        let base: u64 = crate::common::sv();
         let (p, pc) = sym_enum!(ProtocolType::CxlIo => 0u8, ProtocolType::CxlMem => 1);
         let mut e = E::new();
         e.u8(3).u8(0).u16(17).u16(seg).u16(((bus as u16) << 8) | ((d as u16) << 3) | f as u16).u8(pc).u64(base);
@@ -741,7 +742,7 @@ pub mod hest {
         sym_enum!(FirmwareFirst::Disabled => 0u8, FirmwareFirst::Enabled => 1)
     }
     fn dev() -> (PciDevice, u8, u8, u8) {
-        let bus: u8 = kani::any();
+        let bus: u8 = crate::common::sv();
         let (d, f) = any_dev_fn();
         (PciDevice::new(bus, d, f), bus, d, f)
     }
@@ -755,9 +756,9 @@ pub mod hest {
     pub fn root_port(global: bool) -> (PcieAerRootPort, E) {
         let (fw, fc) = ff();
         let (pd, b, d, f) = dev();
-        let v: [u32; 6] = kani::any();
-        let dc: u16 = kani::any();
-        let rec: u32 = kani::any();
+        let v: [u32; 6] = crate::common::sv();
+        let dc: u16 = crate::common::sv();
+        let rec: u32 = crate::common::sv();
         let s = if global { PcieAerRootPort::new_global() } else { PcieAerRootPort::new_root_port(fw, pd) };
         let s = s
             .num_records(v[0])
@@ -776,8 +777,8 @@ pub mod hest {
     pub fn device(global: bool) -> (PcieAerDevice, E) {
         let (fw, fc) = ff();
         let (pd, b, d, f) = dev();
-        let v: [u32; 6] = kani::any();
-        let dc: u16 = kani::any();
+        let v: [u32; 6] = crate::common::sv();
+        let dc: u16 = crate::common::sv();
         let s = if global { PcieAerDevice::new_global() } else { PcieAerDevice::new_root_port(fw, pd) };
         let s = s
             .num_records(v[0])
@@ -794,9 +795,9 @@ pub mod hest {
     pub fn bridge(global: bool) -> (PcieAerBridge, E) {
         let (fw, fc) = ff();
         let (pd, b, d, f) = dev();
-        let v: [u32; 6] = kani::any();
-        let w: [u32; 3] = kani::any();
-        let dc: u16 = kani::any();
+        let v: [u32; 6] = crate::common::sv();
+        let w: [u32; 3] = crate::common::sv();
+        let dc: u16 = crate::common::sv();
         let s = if global { PcieAerBridge::new_global() } else { PcieAerBridge::new_bridge(fw, pd) };
         let s = s
             .num_records(v[0])
@@ -820,8 +821,8 @@ pub mod hest {
             N::GpioSignal => 7, N::Armv8Sea => 8, N::Armv8Sei => 9, N::ExternalGsiv => 10, N::SoftwareException => 11,
             N::RiscvSupervisorSoftwareEvent => 12, N::RiscvLowPriorityRasInterrupt => 13, N::RiscvHighPriorityRasInterrupt => 14,
             N::RiscvHardwareErrorException => 15);
-        let cw: u16 = kani::any();
-        let v: [u32; 6] = kani::any();
+        let cw: u16 = crate::common::sv();
+        let v: [u32; 6] = crate::common::sv();
         let n = NotificationStructure::new(t)
             .conf_write_en(cw)
             .poll_interval_ms(v[0])
@@ -839,9 +840,9 @@ pub mod hest {
         e.append(g).append(n).u32(v[3]);
     }
     pub fn ghes() -> (GenericHardwareSource, E) {
-        let sid: u16 = kani::any();
+        let sid: u16 = crate::common::sv();
         let (en, enc) = sym_enum!(EnabledStatus::Disabled => 0u8, EnabledStatus::Enabled => 1);
-        let v: [u32; 4] = kani::any();
+        let v: [u32; 4] = crate::common::sv();
         let (g, ge) = sym_gas();
         let (n, ne) = notification();
         let s = GenericHardwareSource::new(sid, en)
@@ -856,14 +857,14 @@ pub mod hest {
         (s, e)
     }
     pub fn ghes_v2() -> (GenericHardwareSourceV2, E) {
-        let sid: u16 = kani::any();
+        let sid: u16 = crate::common::sv();
         let (en, enc) = sym_enum!(EnabledStatus::Disabled => 0u8, EnabledStatus::Enabled => 1);
-        let v: [u32; 4] = kani::any();
+        let v: [u32; 4] = crate::common::sv();
         let (g, ge) = sym_gas();
         let (n, ne) = notification();
         let (a, ae) = sym_gas();
-        let pres: u64 = kani::any();
-        let wr: u64 = kani::any();
+        let pres: u64 = crate::common::sv();
+        let wr: u64 = crate::common::sv();
         let s = GenericHardwareSourceV2::new(sid, en)
             .num_records(v[0])
             .max_sections(v[1])
@@ -889,34 +890,34 @@ pub mod rqsc {
     /// resource-ID kinds: 0 cache, 1 memory affinity, 2 ACPI device, 3 PCI device, 4 vendor (2 bytes)
     pub fn resource(kind: u8) -> (ResourceStructure, Exp<32>) {
         let (rt, rtc) = sym_enum!(ResourceType::Cache => 0u8, ResourceType::Memory => 1);
-        let flags: u16 = kani::any();
+        let flags: u16 = crate::common::sv();
         let mut id: Exp<24> = Exp::new();
         let rid = match kind {
             0 => {
-                let c: u32 = kani::any();
+                let c: u32 = crate::common::sv();
                 id.u8(0).u32(c).u32(0).u32(0);
                 ResourceID::Cache(CacheResource::new(c))
             }
             1 => {
-                let pd: u32 = kani::any();
-                let bw: u64 = kani::any();
+                let pd: u32 = crate::common::sv();
+                let bw: u64 = crate::common::sv();
                 id.u8(1).u32(pd).u32(0).u32(0).u64(bw);
                 ResourceID::MemoryAffinityStructure(MemoryAffinityStructureResource::new(pd, bw))
             }
             2 => {
-                let hid: u64 = kani::any();
-                let uid: u32 = kani::any();
+                let hid: u64 = crate::common::sv();
+                let uid: u32 = crate::common::sv();
                 id.u8(2).u64(hid).u32(uid);
                 ResourceID::ACPIDevice(ACPIDeviceResource::new(hid, uid))
             }
             3 => {
-                let bdf: u32 = kani::any();
+                let bdf: u32 = crate::common::sv();
                 id.u8(3).u32(bdf).u32(0).u32(0);
                 ResourceID::PCIDevice(PCIDeviceResource::new(bdf))
             }
             _ => {
-                let t: u8 = kani::any();
-                let d: [u8; 2] = kani::any();
+                let t: u8 = crate::common::sv();
+                let d: [u8; 2] = crate::common::sv();
                 id.u8(t).bytes(&d);
                 ResourceID::VendorSpecific(t, d.to_vec())
             }
@@ -929,9 +930,9 @@ pub mod rqsc {
         let (ct, ctc) = sym_enum!(0u8 => 0u8, 1 => 1);
         let _ = ct;
         let (g, ge) = sym_gas();
-        let rc: u32 = kani::any();
-        let mc: u32 = kani::any();
-        let fl: u16 = kani::any();
+        let rc: u32 = crate::common::sv();
+        let mc: u32 = crate::common::sv();
+        let fl: u16 = crate::common::sv();
         let mut q = QoSController::new(if ctc == 0 { ControllerType::Capacity } else { ControllerType::Bandwidth }, g, rc, mc, fl);
         let mut body: Exp<96> = Exp::new();
         let mut i = 0;
